@@ -253,10 +253,12 @@ def _augment_with_ancient_samples(g, sampled_demes, deme_sample_times):
             if st > 0:
                 # add the frozen branch, as sample time is nonzero
                 frozen_demes.append(sd_frozen)
+                # a frozen branch does not evolve, but its size still enters
+                # the time-step rule, so give it the size of the sampled deme
                 b.add_deme(
                     sd_frozen,
                     start_time=st,
-                    epochs=[dict(end_time=0, start_size=1)],
+                    epochs=[dict(end_time=0, start_size=g_new[sd].size_at(st))],
                     ancestors=[sd],
                 )
             elif t > 0:
